@@ -151,8 +151,8 @@ def catalogue(mm: MM, lsp):
     # ---- registry
     reg = getattr(lsp, "ALL_TYPES_MAP", {})
     for n, c in vars(lsp).items():
-        if n.startswith("_"):
-            continue
+        if n.startswith("__") or (n.startswith("_") and n not in mm.structures and n not in mm.aliases and n not in mm.enums):
+            continue            # module helpers (_SPECIAL_PROPERTIES ...); protocol types may start with one underscore
         is_proto = False
         if isinstance(c, type) and getattr(c, "__module__", None) == lsp.__name__ and (attrs.has(c) or issubclass(c, enum.Enum)):
             is_proto = True
@@ -175,12 +175,15 @@ def catalogue(mm: MM, lsp):
             bad("registry-extra", n, "ALL_TYPES_MAP[%r] is not lsprotocol.types.%s" % (n, n))
     # dynamic: after the first get_converter no field is a string / ForwardRef
     impl.converter()
-    for n, c in reg.items():
-        if isinstance(c, type) and attrs.has(c):
-            for a in attrs.fields(c):
-                stats["fields_resolved"] += 1
-                if _has_fwd(a.type):
-                    bad("unresolved-field", "%s.%s" % (n, a.name), "annotation of %s.%s still contains a forward reference after get_converter()" % (n, a.name))
+    classes = {n: c for n, c in reg.items() if isinstance(c, type) and attrs.has(c)}
+    for n, c in vars(lsp).items():
+        if isinstance(c, type) and attrs.has(c) and getattr(c, "__module__", None) == lsp.__name__:
+            classes.setdefault(n, c)        # also classes the registry forgot
+    for n, c in classes.items():
+        for a in attrs.fields(c):
+            stats["fields_resolved"] += 1
+            if _has_fwd(a.type):
+                bad("unresolved-field", "%s.%s" % (n, a.name), "annotation of %s.%s still contains a forward reference after get_converter()" % (n, a.name))
     return vs, stats
 
 
